@@ -1,5 +1,132 @@
-(* C16 — non-tensor entries follow batch semantics.  Property theorems only. *)
+(* C16 — non-tensor entries follow batch semantics.  Property theorems only.
+   nt = Shared payload shape (NonTensorData) | Stack dim members (NonTensorStack); denote x I = the object at multi-index I. *)
 From Coq Require Import ZArith List Bool.
 Import ListNotations.
 From TD Require Import Spec.PySlice Spec.C16_ObjArray Model.C16_NonTensor.
+From TD Require Import Proofs.C16_BasicsP Proofs.C16_StackP Proofs.C16_SpecP Proofs.C16_IndexP Proofs.C16_MiscP Proofs.C16_TolistP.
 Open Scope nat_scope.
+
+(* maybe_to_stack / from_nontensordata change the representation, never the array *)
+Theorem C16_to_stack_same : forall x y, maybe_to_stack x = Ok y -> forall I, denote y I = denote x I.
+Proof. exact to_stack_same. Qed.
+Print Assumptions C16_to_stack_same.
+
+Theorem C16_from_nontensordata_same : forall x y, from_nontensordata x = Ok y -> forall I, denote y I = denote x I.
+Proof. exact from_nontensordata_same. Qed.
+Print Assumptions C16_from_nontensordata_same.
+
+(* unbind: member k along dim is the array with coordinate k fixed at dim — every shape, every nesting of stacks *)
+Theorem C16_unbind_denote : forall x k dim y,
+  wf x = true -> select k dim x = Ok y -> forall I, dim <= length I -> denote y I = denote x (insert_at dim k I).
+Proof. exact select_denote. Qed.
+Print Assumptions C16_unbind_denote.
+
+(* _stack_non_tensor: the result (one shared object or a stack) denotes the dense stack = coordinate insertion at dim ... *)
+Theorem C16_stack_denote : forall l dim y s,
+  Forall (fun m => shape m = Some s) l -> dim <= length s -> stack_nt l dim = Ok y ->
+  forall I, denote y I = match nth_error I dim with
+                         | Some k => match nth_error l k with Some m => denote m (remove_at dim I) | None => None end
+                         | None => None
+                         end.
+Proof. intros l dim y s Hs Hd H I. rewrite (stack_denote l dim y s Hs Hd H I). apply denote_stack. Qed.
+Print Assumptions C16_stack_denote.
+
+(* ... and is a single shared object only when every operand is a NonTensorData with that same payload, else the stack *)
+Theorem C16_stack_repr : forall l dim y, stack_nt l dim = Ok y ->
+  (exists p sh, y = Shared p sh /\ Forall (fun m => exists sh', m = Shared p sh') l) \/ y = Stack dim l.
+Proof. exact stack_repr. Qed.
+Print Assumptions C16_stack_repr.
+
+(* indexing: for every well-formed entry (any nesting of stacks along any dims), every index of ints / slices / None with
+   at most one advanced index (integer tensor of any rank anywhere; boolean masks wherever the model accepts them), if
+   torch-style indexing of an array of that shape is defined (ix_shape) and the code's algorithm returns y, then y has
+   torch's result shape and holds at every result position R the object of the source position torch selects *)
+Theorem C16_index_denote : forall x idx sh r y,
+  wf x = true -> shape x = Some sh -> n_adv idx <= 1 -> ix_shape idx sh = Some r -> index x idx = Ok y ->
+  shape y = Some r /\ wf y = true /\ forall R I, ix_src idx sh R = Some I -> denote y R = denote x I.
+Proof. exact index_denote. Qed.
+Print Assumptions C16_index_denote.
+
+(* the code's counters (num_single, num_none, num_squash) place the new stack dim after the result dims of the items
+   that precede the stack dim *)
+Theorem C16_new_stack_dim : forall d idx s at_ post,
+  n_adv idx <= 1 -> split_at d idx sst0 = Ok (s, at_, post) ->
+  idx = s_pre s ++ (match at_ with Some it => it :: post | None => [] end) /\
+  new_stack_dim d s = d - cons_n (s_pre s) + prod_n (s_pre s).
+Proof. intros d idx s at_ post Hn H. destruct (split_at_top d idx s at_ post Hn H) as (A & _ & B & _). now split. Qed.
+Print Assumptions C16_new_stack_dim.
+
+(* a NonTensorData is indexed through _getitem_batch_size (C03's model): same shape as the spec *)
+Theorem C16_shared_index_shape : forall idx sh r,
+  n_adv idx <= 1 -> ix_shape idx sh = Some r -> C03_Index.gbs sh (map to_c03 idx) = C03_Index.Ok r.
+Proof. exact B.gbs_of_spec. Qed.
+Print Assumptions C16_shared_index_shape.
+
+(* unbind keeps entries well-formed, with the dim removed *)
+Theorem C16_unbind_shape : forall x k dim y sh n,
+  wf x = true -> shape x = Some sh -> nth_error sh dim = Some n -> k < n -> select k dim x = Ok y ->
+  shape y = Some (remove_at dim sh) /\ wf y = true.
+Proof. exact select_shape. Qed.
+Print Assumptions C16_unbind_shape.
+
+(* tolist(): the nested list is the array in batch (row-major) order, whatever the nesting / stack dims of the entry *)
+Theorem C16_tolist_rowmajor : forall x sh t,
+  wf x = true -> shape x = Some sh -> tolist x = Ok t -> tree_of sh (denote x) = Some t.
+Proof. exact tolist_rowmajor. Qed.
+Print Assumptions C16_tolist_rowmajor.
+
+(* indexed assignment, the branch that does not write: when `dest[idx].tolist() == value.tolist()` the entry is left
+   as it is (a shared object stays shared) and the addressed positions already hold the value *)
+Theorem C16_setitem_noop_sound : forall x idx sh r v vexp cur tc tv,
+  wf x = true -> shape x = Some sh -> n_adv idx <= 1 -> ix_shape idx sh = Some r ->
+  wf v = true -> shape v = Some r ->
+  index x idx = Ok cur -> tolist cur = Ok tc -> tolist v = Ok tv -> tree_eqb tc tv = true ->
+  set_at x idx v vexp = Ok x /\ forall R I, ix_src idx sh R = Some I -> denote x I = denote v R.
+Proof. exact set_at_noop_sound. Qed.
+Print Assumptions C16_setitem_noop_sound.
+
+(* get_non_tensor / NonTensorStack.data.  Full statement: the unique value is returned only when every position holds it. *)
+Definition C16_data_full_statement : Prop :=
+  forall x p, wf x = true -> data_prop x = Some p -> forall I q, denote x I = Some q -> q = p.
+(* true for a stack of NonTensorData members (and then exactly when they all hold p) ... *)
+Theorem C16_data_partial : forall d p0 sh0 r p,
+  forallb is_shared r = true ->
+  (data_prop (Stack d (Shared p0 sh0 :: r)) = Some p <->
+   p = p0 /\ Forall (fun m => exists sh, m = Shared p sh) (Shared p0 sh0 :: r)).
+Proof. exact data_flat. Qed.
+Print Assumptions C16_data_partial.
+(* ... false as soon as a member is itself a stack (finding C16-a) *)
+Theorem C16_data_refuted : exists x p, wf x = true /\ data_prop x = Some p /\ exists I q, denote x I = Some q /\ q <> p.
+Proof. exact data_refuted. Qed.
+Print Assumptions C16_data_refuted.
+
+(* torch.cat of NonTensorData entries.  Full statement: position k of the result holds the object of the operand it comes from. *)
+Definition C16_cat_full_statement : Prop :=
+  forall a b y n, cat_shared [a; b] 0 = Ok y -> shape a = Some [n] -> forall k, denote y [n + k] = denote b [k].
+Theorem C16_cat_partial : forall p l dim y,
+  Forall (fun m => exists sh, m = Shared p sh) l -> cat_shared l dim = Ok y -> exists sh, y = Shared p sh.
+Proof. exact cat_partial. Qed.
+Print Assumptions C16_cat_partial.
+Theorem C16_cat_refuted : exists a b y, cat_shared [a; b] 0 = Ok y /\ shape a = Some [1] /\ shape b = Some [1] /\ shape y = Some [2] /\
+                                        denote y [1] <> denote b [0].
+Proof. exact cat_refuted. Qed.
+Print Assumptions C16_cat_refuted.
+
+(* to_dict (D20): fine for a shared object, raises for every stack *)
+Theorem C16_to_dict_refuted : fixed_D20 = false -> exists x, wf x = true /\ to_dict x = Raised.
+Proof. exact to_dict_refuted. Qed.
+Print Assumptions C16_to_dict_refuted.
+
+(* non-vacuity *)
+Example C16_ex_index :
+  let x := Stack 1 [Shared 1%Z [3]; Stack 0 [Shared 2%Z []; Shared 3%Z []; Shared 2%Z []]] in
+  let idx := [ISl (Some 1%Z) None None; INone; ITen [2] [1%Z; 0%Z]] in
+  wf x = true /\ shape x = Some [3; 2] /\ ix_shape idx [3; 2] = Some [2; 1; 2] /\
+  index x idx = Ok (Stack 2 [Stack 0 [Shared 3%Z [1]; Shared 2%Z [1]]; Shared 1%Z [2; 1]]) /\
+  ix_src idx [3; 2] [1; 0; 0] = Some [2; 1] /\ denote x [2; 1] = Some 2%Z.
+Proof. repeat split; reflexivity. Qed.
+Example C16_ex_stack :
+  stack_nt [Shared 5%Z [2]; Shared 5%Z [2]] 1 = Ok (Shared 5%Z [2; 2]) /\
+  stack_nt [Shared 5%Z [2]; Shared 6%Z [2]] 1 = Ok (Stack 1 [Shared 5%Z [2]; Shared 6%Z [2]]) /\
+  maybe_to_stack (Shared 5%Z [2; 1]) = Ok (Stack 0 [Stack 0 [Shared 5%Z []]; Stack 0 [Shared 5%Z []]]).
+Proof. repeat split; reflexivity. Qed.
